@@ -41,6 +41,7 @@ type stateResolverV2 struct {
 	powerLevelContents        map[string]*PowerLevelContent // A cache of all power level contents
 	powerLevelMainlinePos     map[string]int                // Power level event positions in mainline
 	resolvedCreate            PDU                           // Resolved create event
+	createEvent               PDU                           // The room's create event, for working out who the creators are
 	resolvedPowerLevels       PDU                           // Resolved power level event
 	resolvedJoinRules         PDU                           // Resolved join rules event
 	resolvedThirdPartyInvites map[string]PDU                // Resolved third party invite events
@@ -283,6 +284,14 @@ func ResolveStateConflictsV2New(
 
 	r.allower = newAllowerContext(r.authProvider, userIDForSender, *roomID)
 
+	// Version 2.1 starts from the empty state, so there is no resolved create event yet when the
+	// power events are ordered; the ordering needs it to know who the room creators are.
+	if r.createEvent = getCreateEvent(unconflicted); r.createEvent == nil {
+		if r.createEvent = getCreateEvent(authEvents); r.createEvent == nil {
+			r.createEvent = getCreateEvent(conflicted)
+		}
+	}
+
 	unconflictedSet := newPDUSet(unconflicted)
 
 	// Get the full conflicted set, that is the conflicted events and the
@@ -424,6 +433,17 @@ func HeaderedReverseTopologicalOrdering(events []PDU, order TopologicalOrder) []
 		result[i] = e
 	}
 	return result
+}
+
+// creatorsFromCreateEventOrNone is CreatorsFromCreateEvent for create events whose content
+// has not been validated: an unparseable content names no additional creators.
+func creatorsFromCreateEventOrNone(createEvent PDU) []string {
+	creators := []string{string(createEvent.SenderID())}
+	var content CreateContent
+	if err := json.Unmarshal(createEvent.Content(), &content); err != nil {
+		return creators
+	}
+	return append(creators, content.AdditionalCreators...)
 }
 
 func getCreateEvent(input []PDU) PDU {
@@ -972,11 +992,15 @@ func (r *stateResolverV2) getPowerLevelFromAuthEvents(event PDU) int64 {
 		// get the create event
 		createEvent := r.resolvedCreate
 		if createEvent == nil {
-			panic("getPowerLevelFromAuthEvents: missing resolved create event, cannot calculate PL of sender!")
+			createEvent = r.createEvent
 		}
-		for _, creator := range CreatorsFromCreateEvent(createEvent) {
-			if creator == string(user) {
-				return CreatorPowerLevel
+		// Without any create event (possible for event lists received from other servers)
+		// nobody is known to be a creator.
+		if createEvent != nil {
+			for _, creator := range creatorsFromCreateEventOrNone(createEvent) {
+				if creator == string(user) {
+					return CreatorPowerLevel
+				}
 			}
 		}
 		// otherwise they aren't a creator, so check the PL event.
